@@ -46,7 +46,7 @@ REQUIRED_CLASSES = [
     'integral_ok', 'symmetric_ok', 'half_max_ok', 'prefix_identical', 'unit_ok', 'poly_ok', 'poly_cancelling',
     'composite2_ok', 'composite3_ok', 'refused_names', 'refused_units', 'guess_prefix_ok', 'bounds_prefix_ok',
     'shape_gaussian', 'shape_lorentzian', 'shape_pseudo_voigt', 'fraction_0', 'fraction_1', 'negative_amplitude',
-    'node_rounding_limited', 'fwhm_ignores_foreign_parameters', 'composite_renamed_ok',
+    'node_rounding_limited', 'fwhm_ignores_foreign_parameters', 'composite_renamed_ok', 'mixture_ok',
 ]
 
 PREFIXES = ('', 'p_', 'peak_', 'a', 'ü ')
@@ -277,7 +277,23 @@ def run_peak(case, rec):
     # peak value carries the sign of the amplitude and is the extremum of the sampled values
     if not (f_mu * A > 0 and abs(f_mu) >= np.max(np.abs(v)) * (1 - 4 * EPS)):
         rec.viol(site, 'peak_not_at_loc', f'f(loc)={f_mu!r} is not the extremum (max |f| sampled {np.max(np.abs(v))!r})')
-    # 4. prefixes -----------------------------------------------------------------------
+    # 3b. the pseudo-Voigt is the documented mixture of the package's own (separately judged) Lorentzian and
+    #     Gaussian of equal FWHM: fraction * L + (1 - fraction) * G ----------------------------------------
+    if shape == 'pseudo_voigt':
+        fr = case['fraction']
+        base = {k: val for k, val in p0.items() if k != 'fraction'}
+        yl = M.LorentzianModel()(x, **base).values
+        yg = M.GaussianModel()(x, **{**base, 'scale': base['scale'] / ps.SQRT_2LN2}).values
+        rec.transitions += 2
+        mix = fr * yl + (1.0 - fr) * yg
+        tolm = 16 * EPS * (abs(fr) * np.abs(yl) + abs(1.0 - fr) * np.abs(yg)) + 1e-300
+        rec.evals += 1
+        rec.validated += 1
+        if np.any(~(np.abs(v - mix) <= tolm)):
+            i = int(np.argmax(np.abs(v - mix) - tolm))
+            rec.viol(site, 'not_the_documented_mixture', f'at x={xs[i]!r}: pseudo-Voigt {v[i]!r}, fraction*Lorentzian + (1-fraction)*Gaussian(same FWHM) = {mix[i]!r} (fraction {fr!r})', x=float(xs[i]))
+        else:
+            rec.cls('mixture_ok')
     identical = True
     for prefix in _prefixes(case)[1:]:
         for how in ('ctor', 'with_prefix'):
